@@ -5,6 +5,7 @@ import B3.Spec
 import B3.Gen.Consts
 import B3.Gen.RsPortable
 import B3.Gen.RefCompress
+import B3.Gen.CPortable
 namespace B3.Proofs
 open B3
 
@@ -133,6 +134,65 @@ theorem ref_compress_eq (cv : CV) (m : St) (t : UInt64) (b d : UInt32) :
   generalize v[4] = a4; generalize v[5] = a5; generalize v[6] = a6; generalize v[7] = a7
   generalize v[8] = a8; generalize v[9] = a9; generalize v[10] = a10; generalize v[11] = a11
   generalize v[12] = a12; generalize v[13] = a13; generalize v[14] = a14; generalize v[15] = a15
+  rfl
+
+end B3.Proofs
+
+/-! ### c/blake3_portable.c -/
+namespace B3.Proofs
+open B3
+
+theorem c_g_eq : @Gen.C.g = @Spec.g := rfl
+
+theorem c_sched_eq : ∀ r : Fin 7, ∀ i : Fin 16, Gen.C.MSG_SCHEDULE[r][i] = sigmaPow r i := by decide
+
+theorem c_round_eq (s m : St) (r : Fin 7) : Gen.C.round_fn s m r = Spec.round s (permN r m) := by
+  have h : Gen.C.round_fn s m r = Spec.roundWith s (fun i => m[Gen.C.MSG_SCHEDULE[r][i]]) := by
+    unfold Gen.C.round_fn
+    simp only [c_g_eq]
+    rfl
+  rw [h, Spec.round]
+  congr 1; funext i
+  simp only [permN_get, c_sched_eq]
+
+theorem c_iv : Gen.C.IV = Spec.IV := by decide
+
+theorem set16_all (a : St) (x0 x1 x2 x3 x4 x5 x6 x7 x8 x9 x10 x11 x12 x13 x14 x15 : UInt32) :
+    (((((((((((((((((a.set 0 x0).set 1 x1).set 2 x2).set 3 x3).set 4 x4).set 5 x5).set 6 x6).set 7 x7).set 8 x8).set 9 x9).set 10 x10).set 11 x11).set 12 x12).set 13 x13).set 14 x14).set 15 x15)
+      = #v[x0, x1, x2, x3, x4, x5, x6, x7, x8, x9, x10, x11, x12, x13, x14, x15]) := by
+  rw [vec16_eta a]
+  generalize a[0] = a0; generalize a[1] = a1; generalize a[2] = a2; generalize a[3] = a3
+  generalize a[4] = a4; generalize a[5] = a5; generalize a[6] = a6; generalize a[7] = a7
+  generalize a[8] = a8; generalize a[9] = a9; generalize a[10] = a10; generalize a[11] = a11
+  generalize a[12] = a12; generalize a[13] = a13; generalize a[14] = a14; generalize a[15] = a15
+  rfl
+
+theorem set8_all (a : CV) (x0 x1 x2 x3 x4 x5 x6 x7 : UInt32) :
+    (((((((((a.set 0 x0).set 1 x1).set 2 x2).set 3 x3).set 4 x4).set 5 x5).set 6 x6).set 7 x7) = #v[x0, x1, x2, x3, x4, x5, x6, x7]) := by
+  rw [vec8_eta a]
+  generalize a[0] = a0; generalize a[1] = a1; generalize a[2] = a2; generalize a[3] = a3
+  generalize a[4] = a4; generalize a[5] = a5; generalize a[6] = a6; generalize a[7] = a7
+  rfl
+
+/-- `compress_pre` overwrites all 16 state words (whatever the caller's array held) and all 16
+message words, then runs the seven rounds -/
+theorem c_compress_pre_eq (st : St) (cv : CV) (block : St) (bl : UInt8) (t : UInt64) (fl : UInt8) :
+    Gen.C.compress_pre st cv block bl t fl = Spec.rounds7 (Spec.initState cv t bl.toUInt32 fl.toUInt32) block := by
+  unfold Gen.C.compress_pre Spec.rounds7
+  simp only [c_round_eq, set16_all]
+  rw [c_iv, ← vec16_eta block]
+  rfl
+
+theorem c_compress_in_place_eq (cv : CV) (block : St) (bl : UInt8) (t : UInt64) (fl : UInt8) :
+    Gen.C.compress_in_place cv block bl t fl = first8 (Spec.compress cv block t bl.toUInt32 fl.toUInt32) := by
+  unfold Gen.C.compress_in_place Spec.compress
+  simp only [c_compress_pre_eq, set8_all]
+  rfl
+
+theorem c_compress_xof_eq (cv : CV) (block : St) (bl : UInt8) (t : UInt64) (fl : UInt8) :
+    Gen.C.compress_xof cv block bl t fl = Spec.compress cv block t bl.toUInt32 fl.toUInt32 := by
+  unfold Gen.C.compress_xof Spec.compress
+  simp only [c_compress_pre_eq, set16_all]
   rfl
 
 end B3.Proofs
